@@ -54,7 +54,9 @@ def compute_poc(force, method="deviation_from_baseline", ret_details=False):
             break
     else:
         raise ValueError(f"Undefined POC method '{method}'!")
-    if np.isnan(cp):
+    if np.isnan(cp) or not 0 <= cp < force.size:
+        # no estimate, or an estimate outside of the data (a piecewise
+        # fit may place the contact point before the first sample)
         cp = force.size // 2
     if ret_details:
         return cp, details
